@@ -693,6 +693,19 @@ def gen_class_trace(b, kind, pattern):
                 # class attributes, module-level caches - would leak into the repetition)
                 s2 = SUBJECTS[kind](b, kind, "single")
                 ops.append({"op": "NEW", "obj": "e9", "kind": kind, "params": s2["params"]})
+                if kind in ("QuickShift", "SparseKDE") and "metric_params" not in s2["params"] and "metric_params" not in s["params"]:
+                    # the caller edits the (default) dict-valued hyper-parameter of THAT object
+                    # in place (obj.metric_params["cell_length"] = <a cell of the data's
+                    # dimension>): no other object, existing or future, may follow
+                    xk = s.get("xkey", "X")
+                    spec = b.heap.get(s["fitB"][xk]["$h"], {}) if isinstance(s["fitB"].get(xk), dict) else {}
+                    dim = None
+                    if "shape" in spec:
+                        dim = spec["shape"][1]
+                    elif "base" in spec and "shape" in spec["base"]:
+                        dim = spec["base"]["shape"][1]
+                    if dim:
+                        ops.append({"op": "POKE", "obj": "e9", "param": "metric_params", "key": "cell_length", "value": {"$cell": [rng.choice([1.5, 3.0, 7.0])] * dim}})
                 ops.append({"op": "FIT", "obj": "e9", "args": s2["fitA"], "env": {"rng": {"seed": _seed(rng)}}})
                 ops.extend(_reads_ops("e9", s2, s2["fitA"], b)[:3])
             ops.append({"op": "NEW", "obj": nm, "kind": kind, "params": s["params"], "lane": 0 if s["repeatable"] else None})
@@ -725,7 +738,7 @@ def gen_class_trace(b, kind, pattern):
 
 def gen_fn_trace(b):
     rng = b.rng
-    fn = rng.choice(list(FUNCS))
+    fn = rng.choice(list(FUNCS) + ["periodic_pairwise_euclidean_distances"] * 2 + ["pointwise_local_reconstruction_error", "local_reconstruction_error"])
     ops = b.ops
     allow = ["rng"]
     n = rng.randint(8, 18)
@@ -849,8 +862,26 @@ def gen_fn_trace(b):
     else:
         raise ValueError(fn)
     for li in range(2):
+        if li == 1 and fn == "periodic_pairwise_euclidean_distances" and "Y" not in a and isinstance(a.get("cell_length"), dict) and "$h" in a["cell_length"] and rng.random() < 0.6:
+            # between the two repetitions an estimator that uses the same metric is fitted on
+            # the same points with the same cell (it post-processes the distance matrix it is
+            # given in place): the function must still return what it returned before
+            kind = rng.choice(["QuickShift", "SparseKDE"])
+            a["squared"] = True  # the estimators' own metric call
+            npts = b.heap[a["X"]["$h"]]["shape"][0] if "shape" in b.heap[a["X"]["$h"]] else None
+            mp = {"$dict": {"cell_length": {"$h": a["cell_length"]["$h"]}}}
+            if kind == "QuickShift" and npts and npts >= 3:
+                ops.append({"op": "NEW", "obj": "q0", "kind": "QuickShift", "params": {"gabriel_shell": 2, "metric_params": mp}})
+                ops.append({"op": "FIT", "obj": "q0", "args": {"X": a["X"], "samples_weight": b.ref({"kind": "gauss", "shape": [npts, 1], "seed": _seed(rng), "squeeze": True}, "weights")}, "env": None})
+            elif npts and npts >= 4:
+                wts = b.ref({"kind": "weights", "n": npts, "mode": "normalized", "seed": _seed(rng)}, "weights")
+                ops.append({"op": "NEW", "obj": "q0", "kind": "SparseKDE", "params": {"descriptors": a["X"], "weights": wts, "kernel": "gaussian", "fpoints": 0.5, "metric_params": mp}})
+                ops.append({"op": "FIT", "obj": "q0", "args": {"X": a["X"]}, "env": None})
         ops.append({"op": "FN", "fn": fn, "args": a, "lane": 0, "env": b.env(fn, None, allow + (["interrupt"] if (b.faults and li == 1 and rng.random() < 0.3) else []))})
-        if ops[-1]["env"] and ops[-1]["env"].get("interrupt"):
+        if b.faults and li == 1 and "local" in fn and "estimator" in a and rng.random() < 0.5:
+            # a dense solver fails inside one of the local fits (LinAlgError out of the call)
+            ops[-1]["env"] = {"rng": {"seed": _seed(rng)}, "linalg": {"fail_at": rng.randint(1, 12)}}
+        if ops[-1]["env"] and (ops[-1]["env"].get("interrupt") or ops[-1]["env"].get("linalg")):
             ops[-1]["lane"] = None
     return fn
 
